@@ -1,3 +1,3 @@
-import Driver.Loop
-/-! Driver for group `replay`: replace `[]` by this group's handlers. -/
-def main : IO Unit := TF.Driver.run []
+import Driver.Replay
+/-! Driver for group `replay`. -/
+def main : IO Unit := TF.Driver.run [TF.Driver.handleReplay]
